@@ -637,6 +637,9 @@ func checkTyped(o *sim.Outcome, w *world, ri int, run *GRun, ob *runObs, kind st
 		if malformedReply {
 			allowed[gensign.Panic.String()] = true
 		}
+		if enumRefKind != "" {
+			allowed[enumRefKind] = true
+		}
 		if !allowed[kind] && f.site != "signer" {
 			o.Fail("C04.kind", "kind_mismatch:"+f.phase, step, "fault %s/%s fired in phase %s, run returned %q, allowed %v", f.site, f.fault, f.phase, kind, keysOf(allowed))
 		}
